@@ -9,6 +9,7 @@ import (
 	"sort"
 	"strings"
 	"testing"
+	"time"
 
 	"github.com/google/uuid"
 	"github.com/wrgl/wrgl/pkg/ref"
@@ -114,6 +115,7 @@ func TestReplay(t *testing.T) { evid.Replay(t) }
 type logEntry struct {
 	Old, New []byte
 	Action   string
+	Tx       string // transaction id recorded with the entry ("" none)
 }
 
 type modelT struct {
@@ -223,7 +225,11 @@ func runOn(c Case, rs ref.Store, fsMode bool) (o evid.Outcome, err error) {
 				if err != nil {
 					return fmt.Errorf("step %d: reading log of %q: %v", step, name, err)
 				}
-				got = append(got, logEntry{rl.OldOID, rl.NewOID, rl.Action})
+				tx := ""
+				if rl.Txid != nil {
+					tx = rl.Txid.String()
+				}
+				got = append(got, logEntry{rl.OldOID, rl.NewOID, rl.Action, tx})
 				if len(got) > len(want)+3 {
 					break
 				}
@@ -234,6 +240,9 @@ func runOn(c Case, rs ref.Store, fsMode bool) (o evid.Outcome, err error) {
 			}
 			for i := range got {
 				w := want[len(want)-1-i] // newest first
+				if got[i].Tx != w.Tx {
+					return fmt.Errorf("step %d after %+v: log of %q entry %d (newest first, %s) carries transaction id %q, it was written with %q", step, op, name, i, w.Action, got[i].Tx, w.Tx)
+				}
 				if !bytes.Equal(got[i].New, w.New) || !bytes.Equal(got[i].Old, w.Old) || got[i].Action != w.Action {
 					return fmt.Errorf("step %d after %+v: log of %q entry %d (newest first) = {old %x new %x %s}, model {old %x new %x %s}", step, op, name, i, first(got[i].Old), first(got[i].New), got[i].Action, first(w.Old), first(w.New), w.Action)
 				}
@@ -251,10 +260,20 @@ func runOn(c Case, rs ref.Store, fsMode bool) (o evid.Outcome, err error) {
 			m.vals[op.A] = val(op.V)
 		case "setlog":
 			action := fmt.Sprintf("act%d", step)
-			if err := ref.SaveRef(rs, op.A, val(op.V), "n", "e", action, "msg", nil); err != nil {
+			// every other logged set belongs to a transaction (stores that have transactions)
+			var txid *uuid.UUID
+			tx := ""
+			if op.V%2 == 1 {
+				id := uuid.NewSHA1(uuid.Nil, []byte(fmt.Sprintf("tx-%d", step)))
+				if _, err := rs.NewTransaction(&ref.Transaction{ID: id, Status: ref.TSInProgress, Begin: time.Unix(1600000000+int64(step), 0)}); err == nil {
+					txid, tx = &id, id.String()
+					o.Class("log-entry-with-transaction-id")
+				}
+			}
+			if err := ref.SaveRef(rs, op.A, val(op.V), "n", "e", action, "msg", txid); err != nil {
 				return o, fmt.Errorf("step %d: SaveRef(%q): %v", step, op.A, err)
 			}
-			m.logs[op.A] = append(m.logs[op.A], logEntry{m.vals[op.A], val(op.V), action})
+			m.logs[op.A] = append(m.logs[op.A], logEntry{m.vals[op.A], val(op.V), action, tx})
 			m.vals[op.A] = val(op.V)
 		case "burst":
 			// many logged sets on one name: the log outgrows any read buffer
@@ -264,7 +283,7 @@ func runOn(c Case, rs ref.Store, fsMode bool) (o evid.Outcome, err error) {
 				if err := ref.SaveRef(rs, op.A, v, "n", "e", action, "msg", nil); err != nil {
 					return o, fmt.Errorf("step %d: SaveRef(%q) #%d: %v", step, op.A, i, err)
 				}
-				m.logs[op.A] = append(m.logs[op.A], logEntry{m.vals[op.A], v, action})
+				m.logs[op.A] = append(m.logs[op.A], logEntry{m.vals[op.A], v, action, ""})
 				m.vals[op.A] = v
 			}
 			if op.V >= 8 {
@@ -283,7 +302,7 @@ func runOn(c Case, rs ref.Store, fsMode bool) (o evid.Outcome, err error) {
 			if err := ref.SaveRef(w, op.A, val(op.V), "n", "e", outer, "msg", nil); err != nil || ierr != nil {
 				return o, fmt.Errorf("step %d: SaveRef(%q) with a concurrent writer: %v / %v", step, op.A, err, ierr)
 			}
-			m.logs[op.A] = append(m.logs[op.A], logEntry{m.vals[op.A], val(op.B2), inner}, logEntry{val(op.B2), val(op.V), outer})
+			m.logs[op.A] = append(m.logs[op.A], logEntry{m.vals[op.A], val(op.B2), inner, ""}, logEntry{val(op.B2), val(op.V), outer, ""})
 			m.vals[op.A] = val(op.V)
 		case "delete":
 			err := rs.Delete(op.A)
